@@ -59,6 +59,73 @@ theorem C15_inst_into (buf : List Nat) (i : Inst) :
 theorem C15_inst_alone (i : Inst) : instInto Rspirv.Generated.Traversals.asmInstruction [] i = assembleInst i := by
   rw [C15_inst_into]; rfl
 
+/-! ### `assemble_str`: the translated body appends `packStr`
+
+`fn assemble_str(s: &str, result: &mut Vec<u32>)` is regenerated as six statements (`Generated.Traversals.asmStr`; chunk size and array
+length are data). `strInto` interprets them — `chunks_exact(n)` / `remainder()`, a zeroed array, `copy_from_slice` of the remainder into
+its front, `extend` with the little-endian word of each chunk, `push` of the last word — and the theorem identifies the result with the
+buffer followed by the hand-written `packStr` that `encodeOperand` (C01, C02, C06) uses. -/
+
+/-- `chunks_exact(4)`: the full four-byte chunks and the remainder (fewer than four bytes) -/
+def chunks4 : List Nat → List (List Nat) × List Nat
+  | b0 :: b1 :: b2 :: b3 :: t => match chunks4 t with
+    | (cs, r) => ([b0, b1, b2, b3] :: cs, r)
+  | r => ([], r)
+
+structure SSt where
+  chunks : List (List Nat)
+  rem : List Nat
+  last : List Nat
+  buf : List Nat
+
+def sstmt (bytes : List Nat) (s : SSt) : Nat × Nat → SSt
+  | (0, n) => if n = 4 then { s with chunks := (chunks4 bytes).1 } else s
+  | (1, _) => { s with rem := (chunks4 bytes).2 }
+  | (2, n) => { s with last := List.replicate n 0 }
+  | (3, _) => { s with last := s.rem ++ s.last.drop s.rem.length }
+  | (4, _) => { s with buf := s.buf ++ s.chunks.map leWord }
+  | (5, _) => { s with buf := s.buf ++ [leWord s.last] }
+  | _ => s
+
+/-- `assemble_str(s, &mut buf)` on the bytes of `s` -/
+def strInto (prog : List (Nat × Nat)) (buf : List Nat) (bytes : List Nat) : List Nat :=
+  (prog.foldl (sstmt bytes) ⟨[], [], [], buf⟩).buf
+
+theorem strProg_eq : Rspirv.Generated.Traversals.asmStr = [(0, 4), (1, 0), (2, 4), (3, 0), (4, 0), (5, 0)] := by decide
+
+theorem chunks4_pack (bytes : List Nat) :
+    ((chunks4 bytes).1.map leWord ++ [leWord ((chunks4 bytes).2 ++ (List.replicate 4 0).drop (chunks4 bytes).2.length)]) = packStr bytes := by
+  fun_induction packStr bytes with
+  | case1 b0 b1 b2 b3 t ih =>
+    simp only [chunks4]
+    cases h : chunks4 t with
+    | mk cs r =>
+      simp only [h] at ih
+      simp only [List.map_cons, List.cons_append]
+      exact congrArg _ ih
+  | case2 r hr =>
+    have hc : chunks4 r = ([], r) := by
+      unfold chunks4
+      split
+      · exact absurd rfl (hr _ _ _ _ _)
+      · rfl
+    rw [hc]
+    match r, hr with
+    | [], _ => simp [leWord]
+    | [a], _ => simp [leWord]
+    | [a, b], _ => simp [leWord]
+    | [a, b, c], _ => simp [leWord]
+    | a :: b :: c :: d :: t, hr => exact absurd rfl (hr a b c d t)
+
+/-- **`assemble_str` appends `packStr`**, whatever the buffer holds. -/
+theorem C15_str_into (buf bytes : List Nat) :
+    strInto Rspirv.Generated.Traversals.asmStr buf bytes = buf ++ packStr bytes := by
+  rw [strProg_eq]
+  simp only [strInto, List.foldl, sstmt, if_true]
+  rw [List.append_assoc, chunks4_pack]
+
+example : strInto Rspirv.Generated.Traversals.asmStr [9] [97, 98, 99, 100, 101] = [9, 1684234849, 101] := by decide
+
 /-! ### the containers: `Block`, `Function`, `Module` thread ONE output buffer through their parts
 
 `assemble_into(&self, result: &mut Vec<u32>)` of a block, function or module hands the same vector to each part in turn
